@@ -103,13 +103,13 @@ func c02r1(c *core.Ctx) {
 		return
 	}
 	// the constant the constructor and reset establish
-	reset := p.Func("hap/pair", "(*SetupServerController).reset")
-	rs := stepSummary(reset, tSetupCtrl, "step", 3)
-	if rs.kind != 1 {
+	rsVal, rsPos, rsOK := resetState(p, "SetupServerController", tSetupCtrl)
+	if !rsOK {
 		c.Undecided("reset", token.NoPos, "reset() does not store one constant to step")
 		return
 	}
-	c.OK("reset-stores:"+fmt.Sprint(rs.val), reset.Pos(), "reset stores the constant %d to step and nothing else", rs.val)
+	rs := struct{ val int64 }{rsVal}
+	c.OK("reset-stores:"+fmt.Sprint(rs.val), rsPos, "reset (or, where it was written out, the constructor) stores the constant %d to step", rs.val)
 	enabled := map[int64]string{rs.val: "reset/constructor"}
 	// chain: order handlers by guard constant
 	for _, h := range m.handlers {
